@@ -1,5 +1,250 @@
-(* Props/C06.v -- stub, replaced below *)
+(* Props/C06.v -- property theorems for C06 (both ends hold the same session key; the payload
+   cipher is an exact involution).  Only statements; every proof is `exact <lemma>`; Print
+   Assumptions under each.
+
+   The key agreement itself (crypto/elliptic P-521, not XMT's code) appears as the quantified
+   `pub`, `dh` with the single hypothesis  dh a (pub b) = dh b (pub a);  the output of `dh` is
+   x.Bytes() of the shared point: ANY byte list of ANY length (shorter than the 65-byte share when the
+   big integer has leading zeros).
+
+   `run pub dh false` is the machine of the code as it is now (`false`: next() never merges a Packet
+   that carries key material into a Multi container; `true` is next() before that fix).
+
+   FULL STATEMENT THAT THE CODE DOES NOT SATISFY (kept here on purpose):
+
+     forall h k0 s0,                      (* every history, replies may be lost anywhere *)
+       let s := run pub dh false h (init pub k0 s0) in
+       waiting s = false -> s_reg (sv s) = true ->
+       c_share (cl s) = s_share (sv s) /\ c_next (cl s) = None
+
+   It is refuted by C06_reply_lost_after_processing_refuted, C06_announcement_lost_refuted and
+   C06_reregister_reply_lost_refuted below (each reproduced on the real session()/handle() by the
+   harness on every run, known findings).  What IS proved, for all histories, is the statement with
+   the side condition `safe`: no reply is lost while a key announcement is unacknowledged (a
+   re-key is pending, or the lost reply is the SvComplete carrying the server key).  Every other
+   fault (failed writes anywhere, replies lost at any other point, the server forgetting the
+   client at any point, server restarts with a new key pair) is covered. *)
 From XMT Require Import Base.Prelude Model.Keys Proofs.Keys.
+
+(* ---- the payload cipher: XorOp / Chunk.KeyCrypt ---------------------------------------- *)
+(* applying it twice with the same key restores the bytes: ALL buffers, ALL keys (also empty) *)
 Theorem C06_xor_involution : forall b key, xor_op (xor_op b key) key = b.
 Proof. exact xor_involution. Qed.
 Print Assumptions C06_xor_involution.
+
+(* it never changes the length *)
+Theorem C06_xor_length : forall b key, length (xor_op b key) = length b.
+Proof. exact xor_length. Qed.
+Print Assumptions C06_xor_length.
+
+(* an empty key is a no-op (a KeyPair always holds 65 bytes; XorOp itself accepts any key) *)
+Theorem C06_xor_empty_key : forall b, xor_op b [] = b.
+Proof. exact xor_empty_key. Qed.
+Print Assumptions C06_xor_empty_key.
+
+(* the loop is the XOR with the repeating key *)
+Theorem C06_xor_is_repeating_key_xor : forall b key i d,
+  key <> [] -> (i < length b)%nat ->
+  nth i (xor_op b key) d = Z.lxor (nth i b d) (nth (i mod length key)%nat key 0).
+Proof. exact xor_op_nth. Qed.
+Print Assumptions C06_xor_is_repeating_key_xor.
+
+Theorem C06_xor_is_spec : forall b key, xor_op b key = xor_spec b key.
+Proof. exact xor_op_is_spec. Qed.
+Print Assumptions C06_xor_is_spec.
+
+(* ---- fillShared: copy(k.share[:], v.Bytes()) ------------------------------------------------ *)
+Theorem C06_fill_shared_length : forall old bytes,
+  length old = share_size -> length (fill_shared old bytes) = share_size.
+Proof. exact fill_shared_length. Qed.
+Print Assumptions C06_fill_shared_length.
+
+(* a secret of at least 65 bytes replaces the share entirely *)
+Theorem C06_fill_shared_long : forall old bytes,
+  length old = share_size -> (share_size <= length bytes)%nat ->
+  fill_shared old bytes = firstn share_size bytes.
+Proof. exact fill_shared_long. Qed.
+Print Assumptions C06_fill_shared_long.
+
+(* a shorter one is NOT left-padded: it overwrites the head, the tail of the PREVIOUS share stays *)
+Theorem C06_stale_tail_kept : forall old bytes,
+  (length bytes <= share_size)%nat ->
+  firstn (length bytes) (fill_shared old bytes) = bytes /\
+  skipn (length bytes) (fill_shared old bytes) = skipn (length bytes) old.
+Proof. exact stale_tail_kept. Qed.
+Print Assumptions C06_stale_tail_kept.
+
+(* ... and it matters: different previous tails give different new shares *)
+Theorem C06_stale_tail_matters : forall old1 old2 bytes,
+  (length bytes <= share_size)%nat ->
+  skipn (length bytes) old1 <> skipn (length bytes) old2 ->
+  fill_shared old1 bytes <> fill_shared old2 bytes.
+Proof. exact stale_tail_matters. Qed.
+Print Assumptions C06_stale_tail_matters.
+
+(* ... but it is harmless as long as both ends start from equal previous shares *)
+Theorem C06_stale_tail_harmless :
+  forall (priv point : Type) (pub : priv -> point) (dh : priv -> point -> list Z),
+  (forall a b, dh a (pub b) = dh b (pub a)) ->
+  forall old_c old_s a b,
+  old_c = old_s -> fill_shared old_c (dh a (pub b)) = fill_shared old_s (dh b (pub a)).
+Proof. exact stale_tail_harmless. Qed.
+Print Assumptions C06_stale_tail_harmless.
+
+(* ---- the two ends ------------------------------------------------------------------------ *)
+(* registration handshake: any client pair k, any server pair s0, any ECDH output *)
+Theorem C06_share_agree_handshake :
+  forall (priv point : Type) (pub : priv -> point) (dh : priv -> point -> list Z),
+  (forall a b, dh a (pub b) = dh b (pub a)) ->
+  forall k0 s0 k q,
+  let s := run pub dh false [Hello k; RekeyRecv q; HelloReply] (init pub k0 s0) in
+  settled pub s /\
+  c_share (cl s) = fill_shared zero_share (dh k (pub s0)) /\
+  s_share (sv s) = fill_shared zero_share (dh s0 (pub k)).
+Proof. intros priv point pub dh H. exact (share_agree_handshake priv point pub dh H false). Qed.
+Print Assumptions C06_share_agree_handshake.
+
+(* MAIN: every admissible history from the very beginning, by induction over the event list *)
+Theorem C06_share_agree_all_histories :
+  forall (priv point : Type) (pub : priv -> point) (dh : priv -> point -> list Z),
+  (forall a b, dh a (pub b) = dh b (pub a)) ->
+  forall h k0 s0,
+  safe pub dh false h (init pub k0 s0) = true ->
+  let s := run pub dh false h (init pub k0 s0) in
+  waiting s = false -> s_reg (sv s) = true ->
+  c_share (cl s) = s_share (sv s) /\ c_next (cl s) = None.
+Proof. intros priv point pub dh H. exact (share_agree_safe priv point pub dh H false). Qed.
+Print Assumptions C06_share_agree_all_histories.
+
+(* the same with the coarser condition "no reply is lost at all" (every event but ReplyLost) *)
+Theorem C06_share_agree_lossless :
+  forall (priv point : Type) (pub : priv -> point) (dh : priv -> point -> list Z),
+  (forall a b, dh a (pub b) = dh b (pub a)) ->
+  forall h k0 s0,
+  lossless false h = true ->
+  let s := run pub dh false h (init pub k0 s0) in
+  waiting s = false -> s_reg (sv s) = true ->
+  c_share (cl s) = s_share (sv s) /\ c_next (cl s) = None.
+Proof. intros priv point pub dh H. exact (share_agree_lossless priv point pub dh H false). Qed.
+Print Assumptions C06_share_agree_lossless.
+
+(* after every subsequent re-key: any admissible continuation of any settled state is settled
+   again whenever the client is idle and registered (settled: equal shares, keysNext = nil) *)
+Theorem C06_share_agree_rekey :
+  forall (priv point : Type) (pub : priv -> point) (dh : priv -> point -> list Z),
+  (forall a b, dh a (pub b) = dh b (pub a)) ->
+  forall h s,
+  settled pub s -> safe pub dh false h s = true ->
+  let s' := run pub dh false h s in
+  waiting s' = false -> s_reg (sv s') = true -> settled pub s'.
+Proof. intros priv point pub dh H. exact (share_agree_rekey priv point pub dh H false). Qed.
+Print Assumptions C06_share_agree_rekey.
+
+(* one complete re-key: both new shares are computed over the OLD share, the client's private key
+   becomes the announced one, the reply (written under the server's copy of the old key) is readable *)
+Theorem C06_rekey_round :
+  forall (priv point : Type) (pub : priv -> point) (dh : priv -> point -> list Z),
+  (forall a b, dh a (pub b) = dh b (pub a)) ->
+  forall s k q,
+  settled pub s ->
+  let s' := run pub dh false [RekeySend k; RekeyRecv q; ReplyRecv] s in
+  settled pub s' /\
+  c_share (cl s') = fill_shared (c_share (cl s)) (dh k (pub (s_priv (sv s)))) /\
+  s_share (sv s') = fill_shared (s_share (sv s)) (dh (s_priv (sv s)) (pub k)) /\
+  c_priv (cl s') = k /\
+  c_seen s' = deliver q (c_seen s).
+Proof. intros priv point pub dh H. exact (rekey_round priv point pub dh H false). Qed.
+Print Assumptions C06_rekey_round.
+
+(* a re-key whose announcement could not be written leaves the sender on the old key (and the
+   server untouched); needs no assumption on dh *)
+Theorem C06_write_fail_reverts :
+  forall (priv point : Type) (pub : priv -> point) (dh : priv -> point -> list Z),
+  forall (s : st priv point) k,
+  waiting s = false -> c_next (cl s) = None ->
+  let s' := run pub dh false [RekeySend k; WriteFail] s in
+  cl s' = cl s /\ sv s' = sv s /\ waiting s' = false /\ upw s' = None /\ dnw s' = None.
+Proof. intros priv point pub dh. exact (write_fail_reverts priv point pub dh false). Qed.
+Print Assumptions C06_write_fail_reverts.
+
+(* a reply lost while no announcement is pending changes no key, whether or not the server saw the Packet *)
+Theorem C06_reply_lost_harmless :
+  forall (priv point : Type) (pub : priv -> point) (dh : priv -> point -> list Z),
+  forall (s : st priv point) p,
+  waiting s = false -> c_next (cl s) = None ->
+  (let s' := run pub dh false [DataSend p; ReplyLost] s in cl s' = cl s /\ sv s' = sv s /\ waiting s' = false) /\
+  (forall q, let s' := run pub dh false [DataSend p; RekeyRecv q; ReplyLost] s in
+             cl s' = cl s /\ sv s' = sv s /\ waiting s' = false).
+Proof. intros priv point pub dh. exact (reply_lost_harmless priv point pub dh false). Qed.
+Print Assumptions C06_reply_lost_harmless.
+
+(* under agreement every payload encrypted by one side decrypts to the original on the other *)
+Theorem C06_payload_roundtrip :
+  forall (priv point : Type) (pub : priv -> point) (dh : priv -> point -> list Z),
+  forall (s : st priv point) p q,
+  waiting s = false -> s_reg (sv s) = true -> c_next (cl s) = None -> agree s ->
+  let s' := run pub dh false [DataSend p; RekeyRecv q; ReplyRecv] s in
+  s_seen s' = deliver p (s_seen s) /\ c_seen s' = deliver q (c_seen s) /\ cl s' = cl s /\ sv s' = sv s.
+Proof. intros priv point pub dh. exact (payload_roundtrip priv point pub dh false). Qed.
+Print Assumptions C06_payload_roundtrip.
+
+(* ---- what the code does NOT satisfy (witnesses in a toy commutative agreement, vm_compute) ---- *)
+(* (a) known finding rekey-reply-lost-after-server-processed: one exchange garbled in both
+       directions, then the ends agree again *)
+Theorem C06_reply_lost_after_processing_refuted :
+  let s := toy_run lost_after toy_init in
+  s_seen s <> [[1; 2; 3]] /\ c_seen s <> [[4; 5; 6]] /\ shares_differ s = false /\
+  safe toy_pub toy_dh false lost_after toy_init = false.
+Proof. exact reply_lost_after_processing_refuted. Qed.
+Print Assumptions C06_reply_lost_after_processing_refuted.
+
+(* (b) known finding rekey-announcement-lost: the sender is NOT left on the old key; the ends
+       differ for good, later re-keys do not repair it *)
+Theorem C06_announcement_lost_refuted :
+  let s0 := toy_run handshake toy_init in
+  let s := toy_run undelivered toy_init in
+  waiting s = false /\ c_next (cl s) = None /\ s_reg (sv s) = true /\ shares_differ s = true /\
+  c_share (cl s) <> c_share (cl s0) /\ s_share (sv s) = s_share (sv s0) /\
+  shares_differ (toy_run undelivered_later toy_init) = true /\
+  s_seen (toy_run undelivered_later toy_init) <> [[1; 2; 3]; [1; 2; 3]] /\
+  safe toy_pub toy_dh false undelivered toy_init = false.
+Proof. exact announcement_lost_refuted. Qed.
+Print Assumptions C06_announcement_lost_refuted.
+
+(* (d) known finding reregister-reply-lost: the client stays on the all-zero share *)
+Theorem C06_reregister_reply_lost_refuted :
+  let s := toy_run reregister_lost toy_init in
+  waiting s = false /\ s_reg (sv s) = true /\ shares_differ s = true /\ c_share (cl s) = zero_share /\
+  s_seen s <> [[1; 2; 3]] /\ shares_differ (toy_run reregister_lost_later toy_init) = true /\
+  safe toy_pub toy_dh false reregister_lost toy_init = false.
+Proof. exact reregister_reply_lost_refuted. Qed.
+Print Assumptions C06_reregister_reply_lost_refuted.
+
+(* (c) FIXED (rekey-merged-into-batch): regression witness against next() as it was (merge = true),
+       and the same history on the code as it is (an ordinary re-key) *)
+Theorem C06_batched_rekey_refuted_before_fix :
+  (let s := toy_run_merge batched toy_init in
+   waiting s = false /\ c_next (cl s) = None /\ s_reg (sv s) = true /\ s_seen s = [[1; 2; 3]] /\ shares_differ s = true) /\
+  (let s := toy_run batched toy_init in
+   waiting s = false /\ c_next (cl s) = None /\ s_reg (sv s) = true /\ shares_differ s = false /\
+   c_share (cl s) <> c_share (cl (toy_run handshake toy_init))).
+Proof. exact batched_rekey_refuted_before_fix. Qed.
+Print Assumptions C06_batched_rekey_refuted_before_fix.
+
+(* ---- non-vacuity ------------------------------------------------------------------------ *)
+(* the hypotheses are satisfiable: a commutative agreement exists whose outputs are shorter AND
+   longer than the share, and a 38-event history with every kind of event (handshake, traffic,
+   re-keys, a failed write, two harmless reply losses, a queued-behind re-key, a server restart
+   with a new key, re-registration) is admissible, ends settled on a non-zero share, and every
+   payload arrived unchanged *)
+Example C06_nonvacuous :
+  (forall a b, toy_dh a (toy_pub b) = toy_dh b (toy_pub a)) /\
+  (length (toy_dh 11 7) < share_size)%nat /\ (share_size < length (toy_dh 23 3))%nat /\
+  safe toy_pub toy_dh false busy_history toy_init = true /\
+  (let s := toy_run busy_history toy_init in
+   waiting s = false /\ s_reg (sv s) = true /\ shares_differ s = false /\ is_synced (c_share (cl s)) = true /\
+   c_seen s = [[6; 7]; [2]; [1]; [8]] /\ s_seen s = [[4; 5]; [1; 2]; [7]; [9; 9]]).
+Proof.
+  split; [exact toy_comm|]. split; [vm_compute; lia|]. split; [vm_compute; lia|]. exact busy_history_ok.
+Qed.
+Print Assumptions C06_nonvacuous.
